@@ -254,7 +254,32 @@ func c15Scenarios(tier string) []scenario {
 	return scs
 }
 
+// c15RaceScenarios: concurrent Pings under the race detector. Payload
+// generation and the active-ping table are shared between Ping calls; an
+// unsynchronised access there lets two Pings take the same payload, which the
+// scheduler (atomic between synchronisation points) cannot interleave but the
+// detector reports.
+func c15RaceScenarios(tier string) []scenario {
+	var out []scenario
+	for _, sc := range c15Scenarios(tier) {
+		if !(strings.HasPrefix(sc.Name, "inorder/k2/") || strings.HasPrefix(sc.Name, "asap/k2/") || strings.HasPrefix(sc.Name, "reverse/k2/loop")) {
+			continue
+		}
+		sc.Group = ""
+		sc.Cfg.P = 1
+		if tier == "thorough" {
+			sc.Cfg.P = 2
+		}
+		out = append(out, raceWrap("C15", sc))
+	}
+	return out
+}
+
 func init() {
+	fw.Register(fw.Part{Prop: "C15R", Name: "s.race",
+		Units:  func(tier string) []fw.Unit { return scenarioUnits(c15RaceScenarios(tier)) },
+		Replay: replayFn(c15RaceScenarios),
+	})
 	fw.Register(fw.Part{Prop: "C15", Name: "s.ping",
 		Units:  func(tier string) []fw.Unit { return scenarioUnits(c15Scenarios(tier)) },
 		Replay: replayFn(c15Scenarios),
